@@ -20,7 +20,7 @@ RULE = ("every Exception subclass of builtins and Pyro5.errors x argument tuples
 ASSUMPTIONS = ["classes that cannot be constructed from the value domain (e.g. ExceptionGroup) are counted as skipped",
                "StopIteration raised from an iterator's __next__ is the end of the stream, not an exception, so it is not used for the stream kind",
                "builtin slot attributes (OSError.filename, ImportError.name, ...) are neither args nor custom attributes"]
-REQUIRED_REACH = ["aftermath_cases", "concurrent_exceptions_checked", "exc_ok", "kind_plain", "kind_propget", "kind_propset", "kind_batch", "kind_stream", "unserialisable_ok", "unknown_class_ok", "next_call_ok", "codec_baseexc_ok"]
+REQUIRED_REACH = ["aftermath_cases", "concurrent_exceptions_checked", "exc_ok", "kind_plain", "kind_propget", "kind_propset", "kind_batch", "kind_stream", "unserialisable_ok", "unknown_class_ok", "next_call_ok", "codec_baseexc_ok", "handover_cases_ok"]
 SHARD_TIMEOUT = {"quick": 240, "thorough": 2800}
 
 ARG_SHAPES = [(), ("msg",), ("msg", 2), (2, "strerror"), ("é\x00x", [1, {"k": None}], 2 ** 70, 1.5), ({"d": [1, 2.5, "s"]},), (None,), ("a", "b", "c", "d", "e", "f")]
@@ -381,6 +381,75 @@ def concurrent_phase(fx, sername, registry, rec, r):
             sername, fx.servertype, len(problems), problems[0]), {"concurrent": True, "serializer": sername, "servertype": fx.servertype})
 
 
+def reregistration_phase(fx, sername, rec):
+    """an object id is handed from one object to another with the same member names, whose `submit` is no longer oneway but a regular
+    method that raises; a long-lived proxy that reconnects (either way) gets the exception, like a brand-new proxy does - never None"""
+    P = fx.P
+
+    @P.server.expose
+    class V1(object):
+        @P.server.oneway
+        def submit(self, item):
+            pass
+
+        def other(self):
+            return 1
+
+    @P.server.expose
+    class V2(object):
+        def submit(self, item):
+            e = ValueError("rejected", item)
+            e.reason = ["too", "late"]
+            raise e
+
+        def other(self):
+            return 2
+    for how in ("reconnect", "release"):
+        oid = "handover-%s-%s" % (sername, how)
+        pay = {"reregistration": how, "serializer": sername, "servertype": fx.servertype}
+        rec.case(("reregistration", how, sername, fx.servertype), nontrivial=True)
+        v1, v2 = V1(), V2()
+        fx.register(v1, oid)
+        p = fx.proxy(oid, serializer=sername, timeout=8.0)
+        try:
+            if p.submit(1) is not None or p.other() != 1:
+                rec.inconc("re-registration phase: first object not reached")
+                continue
+            fx.daemon.unregister(v1)
+            fx.register(v2, oid)
+            if how == "reconnect":
+                p._pyroReconnect(tries=3)
+            else:
+                p._pyroRelease()
+            outcomes = []
+            for q in (p, fx.proxy(oid, serializer=sername, timeout=8.0)):
+                try:
+                    outcomes.append(("returned", q.submit(7)))
+                except ValueError as x:
+                    outcomes.append(("raised", type(x).__name__, tuple(x.args), getattr(x, "reason", None)))
+                except Exception as x:
+                    outcomes.append(("raised", type(x).__name__, repr(x)))
+                if q is not p:
+                    q._pyroRelease()
+            want = ("raised", "ValueError", ("rejected", 7), ["too", "late"])
+            if outcomes[1] != want:
+                rec.inconc("re-registration phase: a brand-new proxy got %r" % (outcomes[1],))
+            elif outcomes[0] != want:
+                rec.violation("remote-exception-lost-after-handover", "the id was handed to an object whose submit() raises ValueError('rejected', 7); the long-lived proxy (%s) got %r, "
+                              "a brand-new proxy %r" % (how, outcomes[0], outcomes[1]), pay)
+            else:
+                rec.count("handover_cases_ok")
+        except Exception as x:
+            rec.inconc("re-registration phase failed in the harness: %r" % (x,))
+        finally:
+            p._pyroRelease()
+            for o in (v1, v2):
+                try:
+                    fx.daemon.unregister(o)
+                except Exception:
+                    pass
+
+
 def plan(tier, seed):
     shards = []
     for st in ("thread", "multiplex"):
@@ -462,6 +531,7 @@ def run_shard(shard, rec):
                 check_case(fx, p, armed, registry[clsname], clsname, ("after the fallback", 2), {"custom_a": 1}, sername, kind, rec, "tok%d" % tokn[0])
                 rec.count("aftermath_cases")
         p._pyroRelease()
+        reregistration_phase(fx, sername, rec)
         concurrent_phase(fx, sername, registry, rec, r)
         for kind, text in fixture.take_faults():
             if kind == "thread-exception":
@@ -480,7 +550,9 @@ def replay(payload, rec):
         armed, svc = make_service(P, registry)
         fx.register(svc, "svc")
         p = fx.proxy("svc", serializer=payload["serializer"], timeout=8.0)
-        if payload.get("concurrent"):
+        if payload.get("reregistration"):
+            reregistration_phase(fx, payload["serializer"], rec)
+        elif payload.get("concurrent"):
             for _ in range(5):
                 concurrent_phase(fx, payload["serializer"], registry, rec, gen.rng(0, "replay"))
         elif "extra" in payload:
